@@ -10,6 +10,10 @@
 (* for the whole transfer (wp for write calls, rp for read calls; <<>> = no pattern), e.g. <<sh 5, ei>> = "5 bytes,     *)
 (* then an interrupted call" over and over: hundreds of faults spread over one transfer.  The properties do not         *)
 (* depend on the size.                                                                                                  *)
+(* Setting up the pair: listener and client are made from the same URL; each builds its sockaddr_un from the URL's    *)
+(* path (plen characters; 0 = the driver's short default path) by the same rule - a path longer than sun_path is cut     *)
+(* to SunPathMax characters, never extended - so both ends name the same socket and the pair is established whatever     *)
+(* the length (PairEstablished).  The kernel name is observable (getsockname / the file on disk) and is compared.        *)
 (* The client has sent everything before the peer starts reading (single-threaded driver); the peer's last    *)
 (* read returns 0 (mode "eof": the client was closed) or fails with EAGAIN (mode "nbio").                    *)
 (*                                                                                                           *)
@@ -23,12 +27,16 @@ CONSTANTS Lens,        \* payload lengths
           Modes,       \* subset of {"eof", "nbio"}
           KW, KR,      \* number of leading write / read calls whose outcome the environment chooses
           WPats, RPats,   \* cyclic outcome patterns offered for a whole transfer; {<<>>} = none (free choice of the first K)
+          PathLens,    \* lengths of the socket path (0 = default)
+          SunPathMax,  \* longest name sun_path can hold (sizeof(sun_path) - 1 = 107)
           QueueCap,    \* writes the socket can hold unread (the driver is single-threaded: nobody reads while the client sends)
           Chunk,       \* read chunk of the descriptor reader (4096)
           SendMech, RecvMech,
           Obs(_)       \* observation of a completed behaviour
 
-VARIABLES ph,          \* "send" | "recv" | "done"
+VARIABLES ph,          \* "setup" | "send" | "recv" | "done" ("nopair": the two ends named different sockets)
+          plen,        \* length of the URL's path
+          lname, cname,   \* length of the name the listener bound / the client connected to (-1 = not yet)
           len, mode,
           off,         \* sender: bytes accepted by the kernel so far (repaired loop: the offset it continues from)
           retries,     \* sender: back-off sleeps taken
@@ -41,7 +49,7 @@ VARIABLES ph,          \* "send" | "recv" | "done"
           rcalls, rlen,
           hw, hr,      \* the schedule of this behaviour: outcomes of the scheduled calls, in order
           wp, rp       \* the cyclic patterns of this behaviour (<<>> = none)
-vars == <<ph, len, mode, off, retries, wcalls, sret, chan, bufsz, cur, total, stale, errno, spin, rcalls, rlen, hw, hr, wp, rp>>
+vars == <<plen, lname, cname, ph, len, mode, off, retries, wcalls, sret, chan, bufsz, cur, total, stale, errno, spin, rcalls, rlen, hw, hr, wp, rp>>
 
 Min(x, y) == IF x < y THEN x ELSE y
 \* the short counts offered for a call that could move r bytes: 1, half, all but one
@@ -50,13 +58,22 @@ Shorts(r) == {n \in {1, r \div 2, r - 1} : n >= 1 /\ n < r}
 \* number of write calls that carry data when pattern p is followed for l bytes
 DataWrites(l, p) == LET sh == {p[i][2] : i \in {j \in 1 .. Len(p) : p[j][1] = "sh"}} IN
                     IF sh = {} THEN 1 ELSE (l \div (CHOOSE m \in sh : \A k \in sh : m <= k)) + 1
-Init == /\ len \in Lens /\ mode \in Modes /\ wp \in WPats /\ rp \in RPats
+\* C: the name handed to the kernel is the path, cut to what sun_path holds
+KName(l) == Min(l, SunPathMax)
+Init == /\ len \in Lens /\ mode \in Modes /\ wp \in WPats /\ rp \in RPats /\ plen \in PathLens
         /\ (wp # <<>> => DataWrites(len, wp) <= QueueCap)
-        /\ ph = "send" /\ off = 0 /\ retries = 0 /\ wcalls = 0 /\ sret = FALSE /\ chan = 0
+        /\ lname = -1 /\ cname = -1
+        /\ ph = "setup" /\ off = 0 /\ retries = 0 /\ wcalls = 0 /\ sret = FALSE /\ chan = 0
         /\ bufsz = Chunk /\ cur = 0 /\ total = 0 /\ stale = FALSE /\ errno = "none" /\ spin = FALSE
         /\ rcalls = 0 /\ rlen = 0 /\ hw = <<>> /\ hr = <<>>
 
 ------------------------------------------------------------------------------------------
+(* setup: bind() + listen() of the listener, connect() of the client, accept() *)
+Setup == /\ ph = "setup"
+         /\ lname' = KName(plen) /\ cname' = KName(plen)
+         /\ ph' = IF KName(plen) = KName(plen) THEN "send" ELSE "nopair"
+         /\ UNCHANGED <<plen, len, mode, off, retries, wcalls, sret, chan, bufsz, cur, total, stale, errno, spin, rcalls, rlen, hw, hr, wp, rp>>
+
 (* sender: one action per write() call *)
 \* what the call asks for: the as-built loop always offers the whole payload again, the repaired one the rest
 WReq == IF SendMech = "asbuilt" THEN len ELSE len - off
@@ -84,7 +101,7 @@ SendCall(o) ==
                ELSE \* REPAIRED: carry on behind the bytes the kernel took until nothing is left
                     /\ sret' = (off + o[2] = len)
                     /\ ph' = IF off + o[2] = len THEN "recv" ELSE "send"
-    /\ UNCHANGED <<len, mode, bufsz, cur, total, stale, errno, spin, rcalls, rlen, hr, wp, rp>>
+    /\ UNCHANGED <<plen, lname, cname, len, mode, bufsz, cur, total, stale, errno, spin, rcalls, rlen, hr, wp, rp>>
 
 ------------------------------------------------------------------------------------------
 (* receiver: one action per read() call; every call asks for Chunk bytes at the cursor *)
@@ -135,22 +152,26 @@ RecvCall(o, moved) ==
                    /\ Finish(total)
                    /\ errno' = IF mode = "nbio" THEN "EAGAIN" ELSE errno
                    /\ UNCHANGED <<chan, total, cur, bufsz, stale, spin>>
-    /\ UNCHANGED <<len, mode, off, retries, wcalls, sret, hw, wp, rp>>
+    /\ UNCHANGED <<plen, lname, cname, len, mode, off, retries, wcalls, sret, hw, wp, rp>>
 
 Done == /\ ph = "done"
-        /\ Obs([len |-> len, mode |-> mode, w |-> hw, r |-> hr, wp |-> wp, rp |-> rp, send |-> sret, rlen |-> rlen,
+        /\ Obs([plen |-> plen, name |-> lname, len |-> len, mode |-> mode, w |-> hw, r |-> hr, wp |-> wp, rp |-> rp, send |-> sret, rlen |-> rlen,
                 wcalls |-> wcalls, rcalls |-> rcalls, retries |-> retries])
         /\ UNCHANGED vars
 
-Next == \/ \E o \in WOutcomes : SendCall(o)
+Next == \/ Setup
+        \/ \E o \in WOutcomes : SendCall(o)
         \/ \E o \in ROutcomes : \E moved \in (IF RecvMech = "asbuilt" THEN BOOLEAN ELSE {FALSE}) : RecvCall(o, moved)
         \/ Done
 Spec == Init /\ [][Next]_vars
 
 ------------------------------------------------------------------------------------------
 (* properties *)
-TypeOK == /\ ph \in {"send", "recv", "done"} /\ off \in 0 .. len /\ chan \in 0 .. len
+TypeOK == /\ ph \in {"setup", "send", "recv", "done", "nopair"} /\ off \in 0 .. len /\ chan \in 0 .. len
           /\ wcalls >= 0 /\ rcalls >= 0 /\ retries <= wcalls
+\* both ends name the same socket: the pair is established for every path length
+PairEstablished == /\ ph # "nopair"
+                   /\ (ph # "setup" => (lname = cname /\ lname <= SunPathMax /\ (plen <= SunPathMax => lname = plen)))
 \* every read() writes inside the block the object owns
 CursorInsideBuffer == (ph = "recv") => (~stale /\ cur >= 0 /\ cur + Chunk <= bufsz)
 \* there is always room for a full chunk behind the data already stored
@@ -160,7 +181,7 @@ CursorTracksData == (ph = "recv") => cur = total
 \* read() == 0 ends the loop
 EofEndsLoop == ~spin
 \* the sender reports success only when the kernel has taken every byte
-SendCompleteMeansAll == (ph # "send") => (sret /\ off = len)
+SendCompleteMeansAll == (ph \notin {"setup", "send"}) => (sret /\ off = len)
 \* at completion: received = sent
 ReceivedEqualsSent == (ph = "done") => (sret /\ total = len /\ rlen = len /\ chan = 0)
 \* every schedule runs to completion within the obvious call budget (no livelock)
